@@ -14,3 +14,5 @@ for id in "$@"; do
   ( cd "$HERE" && VERIF_REPO="$WT" timeout 3000 ./check "$id" --tier "${TIER:-quick}" 2>&1 | grep -E "^VIOLATION|^KNOWN|^# |^ERROR" | cut -c1-300 | head -12; echo "rc=${PIPESTATUS[0]}" )
 done
 git -C "$WT" checkout -q -- .
+# the translators wrote Gen/*.lean from the scratch repository: regenerate them from /repo
+( cd "$HERE" && ./gen/run_all.sh > /dev/null 2>&1 )
